@@ -323,6 +323,12 @@ def _run_shard(spec, ctx):
                 shutil.rmtree(cli_dir, ignore_errors=True)
         return
     try:
+        if cli_dir:
+            # lines that end in (or contain) a name with double underscores at both ends: code, not section headers
+            for srcd in (b' local init=cls.__init__\n', b'return getmetatable(o).__class__\n', b'x = t.__index -- c\nt={__index=1}\n',
+                         b'a.__lua__=1\nb=__gfx__x\n', b'f(__gfx__)\n', b'-- __lua__\ns="__gfx__"\n', b'mt.__call = mt.__index\n'):
+                ctx.feature('lines_with_double_underscore_names')
+                check_source(ctx, srcd, 'program', cli_dir)
         for i in range(spec['count']):
             p = progen.gen_program(rng, {'depth': rng.choice((1, 2, 2, 3)), 'max_stmts': 4, 'exotic_numbers': True,
                                          'exotic_strings': True})
@@ -364,6 +370,8 @@ def gates(m, tier):
             f.get('source_heads', 0), f.get('object_filled_in_two_steps', 0), mon.get('object_echoes_compared', 0)))
     if f.get('big_programs', 0) < 3 or f.get('long_line_sources', 0) < 3:
         missed.append('cart-sized programs %d, long one-line sources %d' % (f.get('big_programs', 0), f.get('long_line_sources', 0)))
+    if f.get('lines_with_double_underscore_names', 0) < 7:
+        missed.append('lines with double-underscore names: %d' % f.get('lines_with_double_underscore_names', 0))
     if f.get('build_from_crlf_lua_file', 0) < 5:
         missed.append('build from a .lua file with CRLF line ends: %d' % f.get('build_from_crlf_lua_file', 0))
     if f.get('build_from_lua_file', 0) < 20 or f.get('build_from_lua_file_with_return', 0) < 5:
